@@ -5,16 +5,18 @@ PROPS = {
         title='Optimised hashing and the transcript sponge equal their specification',
         design_ref='DESIGN.md section 4 / C13',
         bounded=[('plonky2', ['c13_'])],
-        vspecs=['contracts/C13/poseidon_mds.vspec', 'contracts/C13/hashing.vspec', 'contracts/C04/challenger.vspec'],
+        vspecs=['contracts/C13/poseidon_mds.vspec', 'contracts/C13/poseidon_partial.vspec', 'contracts/C13/hashing.vspec', 'contracts/C04/challenger.vspec'],
         level_text='Unbounded deductive proof (Verus/Z3) that (i) the frequency-domain MDS multiplication (fft4/ifft4, block1-3, mds_multiply_freq) computes the '
                    'exact integer circulant product and the Goldilocks mds_layer returns, for ALL 2^64 representations of every state element, the published '
-                   'circ+diag MDS row product mod P with no i64/u128 overflow anywhere; (ii) hash_n_to_m_no_pad / hash_n_to_hash_no_pad / compress are exactly '
+                   'circ+diag MDS row product mod P with no i64/u128 overflow anywhere; (i-b) the fast partial-round linear layer mds_partial_layer_fast is, for every round '
+                   'and ALL representations, the exact sparse product (element 0: M00*s0 + sum w_hat[i-1]*s_i; element i: s_i + s0*v[i-1]) mod P: the 160-bit accumulator '
+                   '(add_u160_u128, reduce_u160) never loses a carry and every FAST_PARTIAL_ROUND_VS entry is canonical; (ii) hash_n_to_m_no_pad / hash_n_to_hash_no_pad / compress are exactly '
                    'the overwrite-mode sponge over an uninterpreted permutation (chunk boundaries at multiples of RATE, overwrite not add, squeeze from the rate '
                    'part); (iii) every Challenger method implements the duplex sponge state machine and absorbing a ++ b in one or two calls reaches the same state.',
         level_note='Trusted: Verus+Z3; the permutation is uninterpreted in (ii)/(iii); gl_core contracts (C14) for from_noncanonical_u96 and +. NOT proved: the '
                    'identity between the fast partial rounds (FAST_PARTIAL_* matrices) and the textbook rounds (a computer-algebra identity on 12x12 matrices, '
                    'assumption A-C13-1), round constants, s-box, full/partial round drivers (poseidon.rs) -- listed as remainder. Keccak delegates to an external crate.',
-        remainder=['poseidon.rs: constant_layer, sbox_layer, mds_partial_layer_init/fast, partial_rounds, full_rounds, poseidon (u160 accumulation, reduce_u160)',
+        remainder=['poseidon.rs: constant_layer, sbox_layer, mds_partial_layer_init, partial_first_constant_layer, partial_rounds, full_rounds, poseidon drivers (bounded harness only: poseidon == poseidon_naive; linear layers vs a u128 oracle on magnitude classes and carry-boundary states)',
                    'A-C13-1: FAST_PARTIAL_* constants are the sparse factorisation of the MDS matrix', 'Keccak (external crate)', 'AVX2/NEON Poseidon (not compiled here)'],
     ),
     'C14': dict(
@@ -37,34 +39,35 @@ PROPS = {
         title='Every value a gate computes is pinned by that gate\'s constraints',
         design_ref='DESIGN.md section 4 / C07',
         bounded=[('plonky2', ['c07_'])],
-        vspecs=['contracts/C07/arithmetic_base.vspec', 'contracts/C07/constant.vspec'],
-        level_text='Unbounded deductive proof (Verus/Z3), for ArithmeticGate and ConstantGate in every parameterisation (symbolic num_ops / num_consts) over an '
+        vspecs=['contracts/C07/arithmetic_base.vspec', 'contracts/C07/constant.vspec', 'contracts/C07/exponentiation.vspec', 'contracts/C02/gate_constraints.vspec'],
+        level_text='Unbounded deductive proof (Verus/Z3), for ArithmeticGate, ConstantGate and ExponentiationGate in every parameterisation (symbolic num_ops / num_consts / num_power_bits) over an '
                    'abstract commutative ring, that the extension-field, packed/base and in-circuit evaluators all return ONE ring-generic specification '
                    'expression per constraint, exactly num_constraints() of them, with all wire indexing in bounds; plus the pinning lemma (constraint zero '
-                   '<==> output wire equals the computed value). The other gates, the filtered in-circuit evaluator and the generators are covered by a bounded stand-in '
-                   'only (labelled bounded); Gate::eval_filtered (native) is proved under C02.',
+                   '<==> output wire equals the computed value; for ExponentiationGate the n+1-th constraint output - mid[n-1] and the square-and-multiply chain, most significant bit first). The other gates, the filtered in-circuit evaluator and the generators are covered by a bounded stand-in '
+                   'only (labelled bounded); Gate::eval_filtered (native filter plumbing: selector column, `num_selectors > 1`, prefix removal) is proved in the shared unit gate_constraints.',
         level_note='Trusted: Verus+Z3; abstract ring for scalar/extension/packed fields (T6); CircuitBuilder arithmetic contracts (T10d). Other gates '
                    '(BaseSum, Exponentiation, RandomAccess, Reducing*, MulExtension, ArithmeticExtension, Poseidon*, CosetInterpolation, Lookup*) and '
                    'eval_filtered_circuit/compute_filter: bounded harness only (c07_gates: 18 gate instances x {standard, 37-routed-wire} configuration: extension vs '
                    'base-batch vs in-circuit evaluators incl. filtered with 1 and 2 selectors, declared constraint count, and for every wire a generator writes: the '
                    'generated row satisfies the gate and the wire cannot be changed by +1, -1, 12345 without violating a constraint).',
-        remainder=['all gates other than ArithmeticGate and ConstantGate (bounded harness only)', 'generators run_once (closures over the witness)', 'eval_filtered_circuit / compute_filter'],
+        remainder=['all gates other than ArithmeticGate, ConstantGate and ExponentiationGate (bounded harness only)', 'generators run_once (closures over the witness)', 'eval_filtered_circuit / compute_filter'],
     ),
     'C09': dict(
         title='STARK proofs are accepted exactly for traces that satisfy the constraints',
         design_ref='DESIGN.md section 4 / C09',
         bounded=[('starky', ['c09_'])],
-        vspecs=['contracts/C09/constraint_consumer.vspec', 'contracts/C09/stark_degree.vspec'],
+        vspecs=['contracts/C09/constraint_consumer.vspec', 'contracts/C09/stark_degree.vspec', 'contracts/C09/lagrange_ends.vspec'],
         level_text='Unbounded deductive proof (Verus/Z3) that ConstraintConsumer accumulates acc_i*alpha_i + c*filter with filter = 1, z_last, L_first, L_last for '
                    'constraint / constraint_transition / constraint_first_row / constraint_last_row respectively (a swapped or missing filter fails the '
                    'postcondition); Stark::quotient_degree_factor is 0 for degree 0, 1 for degrees 1 and 2 and degree-1 above (a STARK with constraints always gets '
-                   'a quotient wide enough for its declared degree) and num_quotient_polys is that times num_challenges. The STARK verifier/prover themselves '
+                   'a quotient wide enough for its declared degree) and num_quotient_polys is that times num_challenges; eval_l_0_and_l_last returns '
+                   '(x^n - 1)/(n(x - 1)) and (x^n - 1)/(n(gx - 1)), the filters of the first-row and last-row constraints. The STARK verifier/prover themselves '
                    '(iterator pipelines) are covered by a bounded stand-in only.',
         level_note='Trusted: Verus+Z3; abstract ring for packed fields; lane-wise scalar multiplication uninterpreted. verify_stark_proof_with_challenges, '
                    'compute_quotient_polys, eval_vanishing_poly, get_challenges: bounded harness only (flat_map/chunks/Option plumbing outside the Verus subset): '
                    'a Fibonacci STARK and a family of counter STARKs (2..40 columns, declared degree 1..3, 8..128 rows): honest traces accepted; corrupted first / '
                    'interior / last rows, false public inputs (also pairs of errors that would cancel under a shared weight) and altered proof elements never accepted.',
-        remainder=['starky verifier / prover / vanishing polynomial (bounded harness only)', 'eval_l_0_and_l_last'],
+        remainder=['starky verifier / prover / vanishing polynomial (bounded harness only)', 'batch_multiplicative_inverse (assumed contract)', 'STARK soundness argument'],
     ),
     'C15': dict(
         title='Transforms and polynomial algebra agree with their definitions',
@@ -191,13 +194,17 @@ PROPS = {
         title='No accepted proof exists for an assignment that violates the circuit',
         design_ref='DESIGN.md section 4 / C02',
         bounded=[('plonky2', ['c02_'])],
-        vspecs=['contracts/C02/gate_constraints.vspec', 'contracts/C03/plonk_verifier.vspec', 'contracts/C08/lookup_selectors.vspec'],
+        vspecs=['contracts/C02/gate_constraints.vspec', 'contracts/C02/forest.vspec', 'contracts/C02/partial_products.vspec', 'contracts/C03/plonk_verifier.vspec', 'contracts/C08/lookup_selectors.vspec'],
         level_text='Unbounded deductive proof (Verus/Z3) of three of the mechanisms the property names: (i) evaluate_gate_constraints returns, in every '
                    'slot j, the sum over EVERY gate type of the circuit of that gate\'s j-th filtered constraint, each taken with its own selector column '
                    'and group range (no gate skipped, nothing overwritten), and Gate::eval_filtered multiplies the gate\'s own evaluator (run on the '
                    'constants without the selector and lookup-selector prefixes) by compute_filter(row, group, constants[selector_index], '
                    'num_selectors > 1); (ii) the verifier checks vanishing(zeta) == Z_H(zeta) * t(zeta) for EVERY challenge index '
-                   '(verify_with_challenges, shared with C03); (iii) the lookup selectors are placed for every table (shared with C08). '
+                   '(verify_with_challenges, shared with C03); (iii) the lookup selectors are placed for every table (shared with C08); (iv) the disjoint-set forest '
+                   'behind the copy classes: add creates a singleton class, find returns the representative and changes no class (path compression), merge unites '
+                   'EXACTLY the two classes named and no other, compress_paths leaves every parent pointer equal to its representative (what wire_partition '
+                   'assumes), all for arbitrary forests with termination proved; Target::index is the row-major grid index; (v) partial_products_and_z_gx '
+                   'returns Z(x) times the running chunk products (last entry = Z(gx)) and num_partial_products = ceil(n/max_degree) - 1. '
                    'The soundness argument over these mechanisms, the permutation argument and the adversarial-prover half are covered by a bounded '
                    'stand-in only.',
         level_note='Trusted: Verus+Z3; Gate::eval_unfiltered and compute_filter as uninterpreted functions (T10); dyn-Gate dispatch to the default '
@@ -205,8 +212,8 @@ PROPS = {
                    'exponentiation / lookups + random access), every row x 13 columns, single-cell and copy-class corruptions of the witness handed to '
                    'prove_with_partition_witness, with an independent native oracle deciding whether the assignment violates the circuit. Degenerate '
                    'strategies that need prover hooks (all-zero Z, altered quotient) are NOT exercised.',
-        remainder=['PLONK soundness (Schwartz-Zippel) over the checked identities', 'permutation argument: Forest / wire_partition / get_sigma_map (bounded harness only)',
-                   'eval_vanishing_poly: L_0 term, partial products (bounded harness only)', 'PartitionWitness::set_target_returning_rep',
+        remainder=['PLONK soundness (Schwartz-Zippel) over the checked identities', 'permutation argument: wire_partition / get_sigma_map / get_sigma_polys (HashMap code; bounded harness only)',
+                   'eval_vanishing_poly: L_0 term, check_partial_products (tuple_windows / zip_eq; bounded harness only)', 'PartitionWitness::set_target_returning_rep',
                    'adversarial strategies needing prover hooks (all-zero Z, per-challenge quotient alteration): not exercised'],
     ),
     'C08': dict(
